@@ -94,10 +94,25 @@ impl PacketKey for MKey {
     }
 }
 
+/// Identity header protection. Like a real header key it *reads* the sample
+/// (`sample_size()` bytes starting 4 bytes after the packet number offset) and the first header
+/// byte and packet number bytes, so a caller that hands it a packet too short for the sample
+/// panics on the slice exactly as with rustls' implementation.
 pub struct NoHp;
+impl NoHp {
+    fn touch(pn_offset: usize, packet: &[u8]) {
+        let sample = &packet[pn_offset + 4..pn_offset + 4 + 16];
+        let first = packet[0];
+        std::hint::black_box((sample, first, &packet[pn_offset..pn_offset + 4]));
+    }
+}
 impl HeaderKey for NoHp {
-    fn decrypt(&self, _pn_offset: usize, _packet: &mut [u8]) {}
-    fn encrypt(&self, _pn_offset: usize, _packet: &mut [u8]) {}
+    fn decrypt(&self, pn_offset: usize, packet: &mut [u8]) {
+        Self::touch(pn_offset, packet);
+    }
+    fn encrypt(&self, pn_offset: usize, packet: &mut [u8]) {
+        Self::touch(pn_offset, packet);
+    }
     fn sample_size(&self) -> usize {
         16
     }
